@@ -55,7 +55,11 @@ Accepts(cls, d, by) ==
     [] cls = "PS" -> d.kind = "inner" /\ d.verb \in {"STATP", "STATQ"}
     [] cls = "RF" -> d.kind = "inner" /\ d.verb = "RFERR"
     [] cls = "WC" -> d.kind = "inner" /\ d.verb = "WCERR"
-    [] OTHER      -> d.kind = "inner" /\ out.c = by /\ d.verb = ReplyVerb(out.verb)
+    [] OTHER      -> /\ d.kind = "inner"
+                     /\ \/ out.c = by /\ d.verb = ReplyVerb(out.verb)
+                        \* after the transport was lost the attempts of the call whose turn it is leave no trace on the
+                        \* wire, but its handler still waits at the queue and takes what is there (a late duplicate)
+                        \/ down /\ by \in TaskNames /\ calls[by].active /\ order # <<>> /\ Head(order) = by
 
 TInit == /\ TKInit /\ tid \in 1..NLogs /\ l = 1
          /\ queue = <<>> /\ marked = FALSE /\ headSince = 0 /\ out = NoReq
